@@ -148,36 +148,61 @@ theorem specArchiveDocs_split (strip : Int) (pre r : List Member) (m : Member) (
     if_true, List.filterMap_cons]
   cases docOf strip m <;> simp
 
+theorem lies_split (pre r : List Member) (m : Member) (hm : m.kind = .reg) (hpre : ∀ x ∈ pre, x.kind ≠ .reg) :
+    lies (pre ++ m :: r) = (decide (m.size ≠ m.content.length) || lies r) := by
+  have hp : (pre.any fun m => decide (m.kind = .reg ∧ m.size ≠ m.content.length)) = false := by
+    rw [List.any_eq_false]
+    intro x hx
+    simp [hpre x hx]
+  simp only [lies, List.any_append, hp, Bool.false_or, List.any_cons, hm, true_and]
+
+theorem lies_false_of_no_reg (ms : List Member) (h : hasReg ms = false) : lies ms = false := by
+  simp only [hasReg, List.any_eq_false] at h
+  simp only [lies, List.any_eq_false]
+  intro x hx
+  have := h x hx
+  simp_all
+
 theorem indexLoop_spec (strip : Int) (ms : List Member) (b : Option (List ADoc)) :
     indexLoop strip ms b =
-      if hasReg ms then some (b.getD [] ++ specArchiveDocs strip ms) else b := by
+      if lies ms then .error "read"
+      else .ok (if hasReg ms then some (b.getD [] ++ specArchiveDocs strip ms) else b) := by
   induction hlen : ms.length using Nat.strongRecOn generalizing ms b with
   | ind n ih =>
     rw [indexLoop]
     split
     · rename_i hnone
-      rw [(nextFile_none_iff ms).mp hnone]
+      have hnr := (nextFile_none_iff ms).mp hnone
+      rw [hnr, lies_false_of_no_reg ms hnr]
       simp
     · rename_i m rest hsome
       obtain ⟨hm, pre, hpre, hall⟩ := nextFile_some hsome
       have hlt := nextFile_length hsome
       have hreg : hasReg ms = true := by
         rw [hpre]; simp [hasReg, hm]
-      rw [ih rest.length (by omega) rest _ rfl, hreg, hpre, specArchiveDocs_split strip pre rest m hm hall]
-      simp only [if_true, Option.getD_some, stripComponents, stripLoop_spec, docOf]
-      by_cases hr : hasReg rest = true
-      · simp only [hr, if_true, Option.some.injEq]
-        by_cases hs : specStrip m.name strip.toNat = [] <;> simp [hs]
-      · have hr' : hasReg rest = false := by simpa using hr
-        have hnil : specArchiveDocs strip rest = [] := by
-          rw [specArchiveDocs_eq]
-          have : rest.filter (fun m => m.kind = .reg) = [] := by
-            rw [List.filter_eq_nil_iff]
-            intro x hx
-            simp only [hasReg, List.any_eq_false] at hr'
-            simpa using hr' x hx
-          simp [this]
-        simp only [hr', hnil, Option.some.injEq]
-        by_cases hs : specStrip m.name strip.toNat = [] <;> simp [hs]
+      rw [hpre, lies_split pre rest m hm hall, specArchiveDocs_split strip pre rest m hm hall]
+      have hreg' : hasReg (pre ++ m :: rest) = true := by rw [← hpre]; exact hreg
+      by_cases hsz : m.size = m.content.length
+      · simp only [readAll, hsz, if_true, ne_eq, not_true_eq_false, decide_false, Bool.false_or, hreg']
+        rw [ih rest.length (by omega) rest _ rfl]
+        by_cases hl : lies rest = true
+        · simp [hl]
+        · have hl' : lies rest = false := by simpa using hl
+          simp only [hl', Bool.false_eq_true, if_false, if_true, Option.getD_some, stripComponents, stripLoop_spec, docOf]
+          by_cases hr : hasReg rest = true
+          · simp only [hr, if_true]
+            by_cases hs : specStrip m.name strip.toNat = [] <;> simp [hs]
+          · have hr' : hasReg rest = false := by simpa using hr
+            have hnil : specArchiveDocs strip rest = [] := by
+              rw [specArchiveDocs_eq]
+              have : rest.filter (fun m => m.kind = .reg) = [] := by
+                rw [List.filter_eq_nil_iff]
+                intro x hx
+                simp only [hasReg, List.any_eq_false] at hr'
+                simpa using hr' x hx
+              simp [this]
+            simp only [hr', hnil]
+            by_cases hs : specStrip m.name strip.toNat = [] <;> simp [hs]
+      · simp [readAll, hsz]
 
 end ZoektModel.C15
